@@ -163,6 +163,36 @@ func zeroValueProgs(base int) []*Prog {
 			id++
 		}
 	}
+	// element type any: a key whose value is nil (or a zero) is present
+	for _, kt := range []string{"string", "int"} {
+		key := map[string]string{"string": "\"k\"", "int": "7"}[kt]
+		var b strings.Builder
+		line := func(f string, a ...interface{}) { b.WriteString("\t" + fmt.Sprintf(f, a...) + "\n") }
+		line("m := map[%s]any{}", kt)
+		line("m[%s] = nil", key)
+		line("v, ok := m[%s]", key)
+		line("fmt.Println(v == nil, ok, len(m))")
+		line("m[k] = 0")
+		line("w, ok2 := m[k]")
+		line("fmt.Println(w == nil, ok2, len(m))")
+		line("m[k] = nil")
+		line("_, ok3 := m[k]")
+		line("n := 0")
+		line("for range m {")
+		line("\tn++")
+		line("}")
+		line("delete(m, %s)", key)
+		line("_, ok4 := m[%s]", key)
+		line("fmt.Println(ok3, n, ok4, len(m))")
+		name := fmt.Sprintf("f%d", id)
+		src := fmt.Sprintf("package main\n\nimport \"fmt\"\n\nfunc %s(k %s) int {\n%s\treturn len(m)\n}\n", name, kt, b.String())
+		p := &Prog{ID: "anymap:" + kt, Src: src, Entry: name, Params: []Param{{"k", kt}}, Results: []string{"int"}, Family: "C10/E/any/" + kt}
+		if kt == "string" {
+			p.StrLen = map[string]int{"k": 1}
+		}
+		progs = append(progs, p)
+		id++
+	}
 	return progs
 }
 
